@@ -278,17 +278,30 @@ impl Agg {
 /// been recorded at index v, runs with a larger index are skipped (all smaller
 /// ones still execute), so the reported first violation is the lowest-index
 /// one whatever the worker count.
-pub fn par_batch<F>(runs: u64, workers: usize, max_samples: usize, f: F) -> Agg
+///
+/// Bounded liveness: a watchdog thread observes how long each worker has been
+/// inside its current run; a run that does not return within
+/// `VERIF_RUN_TIMEOUT_S` (default 120 s, four orders of magnitude above a
+/// normal run) is reported through `on_hang(idx)`, which must not return.
+pub fn par_batch_watched<F, H>(runs: u64, workers: usize, max_samples: usize, f: F, on_hang: H) -> Agg
 where
     F: Fn(u64, &mut Agg) + Sync,
+    H: Fn(u64) + Sync,
 {
     let next = AtomicU64::new(0);
     let stop_at = AtomicU64::new(u64::MAX);
     let total = Mutex::new(Agg::default());
+    let workers = workers.max(1);
+    let t0 = std::time::Instant::now();
+    // (current run index or u64::MAX, start in ms since t0)
+    let slots: Vec<(AtomicU64, AtomicU64)> = (0..workers).map(|_| (AtomicU64::new(u64::MAX), AtomicU64::new(0))).collect();
+    let live = AtomicU64::new(workers as u64);
+    let timeout_ms = run_timeout().as_millis() as u64;
     const CHUNK: u64 = 64;
     std::thread::scope(|s| {
-        for _ in 0..workers.max(1) {
-            s.spawn(|| {
+        for w in 0..workers {
+            let (next, stop_at, total, slots, live, f) = (&next, &stop_at, &total, &slots, &live, &f);
+            s.spawn(move || {
                 let mut agg = Agg::default();
                 loop {
                     let start = next.fetch_add(CHUNK, Ordering::Relaxed);
@@ -299,16 +312,35 @@ where
                         if idx > stop_at.load(Ordering::Relaxed) {
                             continue;
                         }
+                        slots[w].1.store(t0.elapsed().as_millis() as u64, Ordering::Relaxed);
+                        slots[w].0.store(idx, Ordering::Release);
                         let before = agg.violations.len();
                         f(idx, &mut agg);
+                        slots[w].0.store(u64::MAX, Ordering::Release);
                         if agg.violations.len() > before {
                             stop_at.fetch_min(idx, Ordering::Relaxed);
                         }
                     }
                 }
                 total.lock().unwrap().merge(agg, max_samples);
+                live.fetch_sub(1, Ordering::Release);
             });
         }
+        // watchdog (reads a real clock: it can only turn a hang into a verdict, never change a result)
+        let (slots, live, on_hang) = (&slots, &live, &on_hang);
+        s.spawn(move || {
+            while live.load(Ordering::Acquire) > 0 {
+                std::thread::sleep(std::time::Duration::from_millis(100));
+                let now = t0.elapsed().as_millis() as u64;
+                for (idx, start) in slots.iter() {
+                    let i = idx.load(Ordering::Acquire);
+                    if i != u64::MAX && now.saturating_sub(start.load(Ordering::Relaxed)) > timeout_ms && idx.load(Ordering::Acquire) == i {
+                        on_hang(i);
+                        std::process::exit(1);
+                    }
+                }
+            }
+        });
     });
     let mut agg = total.into_inner().unwrap();
     // keep only what is independent of the worker count: drop anything that
@@ -317,6 +349,45 @@ where
         agg.violations.retain(|k, _| *k == first);
     }
     agg
+}
+
+pub fn par_batch<F>(runs: u64, workers: usize, max_samples: usize, f: F) -> Agg
+where
+    F: Fn(u64, &mut Agg) + Sync,
+{
+    par_batch_watched(runs, workers, max_samples, f, |idx| {
+        println!("harness error: run {idx} did not finish within the run timeout and the engine registered no hang reporter");
+        std::process::exit(2);
+    })
+}
+
+pub fn run_timeout() -> std::time::Duration {
+    std::time::Duration::from_secs(env_u64("VERIF_RUN_TIMEOUT_S", 120))
+}
+
+/// Report a run that did not terminate: writes the replay file, prints the
+/// VIOLATION line and exits 1.
+pub fn report_hang(property: &str, seed: u64, idx: u64, scenario: Value) -> ! {
+    let root = verif_root();
+    let path = root.join("replays").join(format!("{property}-seed{seed}-run{idx}.json"));
+    let detail = format!("run did not return within {} s (bounded liveness: every simulated run must terminate)", run_timeout().as_secs());
+    write_json(&path, &json!({"property": property, "seed": seed, "run": idx, "class": "hang", "detail": detail, "scenario": scenario}));
+    println!("VIOLATION property={property} replay={}", path.display());
+    println!("  class=hang run={idx} seed={seed}");
+    println!("  detail: {detail}");
+    std::process::exit(1)
+}
+
+/// Run `f` on a helper thread; None if it does not finish within the run timeout.
+pub fn with_timeout<R: Send + 'static>(f: impl FnOnce() -> R + Send + 'static) -> Option<R> {
+    let (tx, rx) = std::sync::mpsc::channel();
+    std::thread::Builder::new()
+        .stack_size(16 << 20)
+        .spawn(move || {
+            let _ = tx.send(f());
+        })
+        .expect("spawn");
+    rx.recv_timeout(run_timeout()).ok()
 }
 
 // ---------------------------------------------------------------------------
